@@ -27,9 +27,12 @@ func BuildEndpointPolicyTree(
 			return nil, err
 		}
 		var endpointPolicy *map[urltree.Method]EndpointPolicy
-		existingEndpointPolicy := endpointPolicyTree.Lookup(endpoint.URL)
-		if existingEndpointPolicy.Value != nil {
-			existingPolicy := *existingEndpointPolicy.Value
+		// Only the map stored at exactly this declared URL may be extended:
+		// a node that merely matches the URL (a wildcard or path parameter
+		// pattern) belongs to other endpoints.
+		existingEndpointPolicy := endpointPolicyTree.LookupDeclaredURL(endpoint.URL)
+		if existingEndpointPolicy != nil {
+			existingPolicy := *existingEndpointPolicy
 			existingPolicy[urltree.Method(endpoint.Method)] = EndpointPolicy{
 				URL:       endpoint.URL,
 				Remedies:  endpoint.Remedies,
